@@ -18,9 +18,57 @@ CHECKS = {
    text='Bounded model checking over a fault model: one torn/garbage/wrong-type pickle (10 exception kinds) with arbitrary fresh-looking time stamps; one failing file operation among 9 primitives x realistic OSError kinds incl. a crash inside pickle.dump; vanished cache directory; maintenance with arbitrary atime/mtime/lock times. Decided over all paths: parse succeeds with the current tree, a later save repairs, active entries survive clean-up.',
    note='Same environment model as C16 plus fault stubs; torn files are modelled by the exception unpickling raises, not by real byte streams; two processes are modelled as faults at call boundaries.'),
 }
+
+_X = 'SMT-backed symbolic execution (CrossHair/z3) of the real code'
+_N = ('Trusted: CrossHair 0.0.110 + vp/chplugin.py, the tree oracles of vp/treeoracle.py (validated on the repository test corpus and by '
+      'native brute force over the harness families), reference walk in vp/oracle.py. Every condition has a reachability twin; '
+      'counterexamples are replayed on plain /venv python before a VIOLATION is printed; inconclusive conditions are listed, never counted.')
+CHECKS.update({
+ 'C01': dict(engine='x-crosshair', ref='DESIGN.md 4/C01', technique=_X + ': symbolic Unicode character / identifier spelling / byte through tokenizer+parser',
+   text='Bounded model checking: get_code() == input, leaves tile the input, every subtree is its contiguous slice - decided over all paths for a symbolic character (ALL of Unicode) in holes of skeleton texts through the real tokenizer and error-recovering parser, for symbolic identifier spellings on token streams, for bytes input with a symbolic byte and BOM flag, for split_lines on all 3-character strings; label holes (every token of the grammar at every position of short programs) enumerated completely by the solver. Tokenizer-only obligations (all 1-/2-character texts) are C09\'s.',
+   note=_N),
+ 'C02': dict(engine='x-crosshair', ref='DESIGN.md 4/C02', technique=_X + ': symbolic spellings; complete label holes through the error-recovering parser',
+   text='Bounded model checking of totality and well-formedness (no exception, termination, parent-less file_input ending in the end marker, non-empty interior nodes, str leaves): symbolic identifier spellings (all one-character Unicode identifiers, all two-character ASCII identifiers incl. keywords) on token streams; every label of the grammar inserted at / replacing every position of short programs incl. f-strings (realised, complete); thorough tier adds symbolic Unicode characters in text holes and pairs of labels. Nesting depth near 100 is not claimed.',
+   note=_N),
+ 'C03': dict(engine='x-crosshair', ref='DESIGN.md 4/C03', technique=_X + ': unit laws with symbolic strings/ints + pipeline holes',
+   text='Bounded model checking: Leaf.end_pos for every value of length <=3 over all of Unicode and every start position, prefix starts of first leaves and after zero-width indentation error leaves, against a reference walk; pipeline conditions (symbolic Unicode character in skeleton texts, spellings, label holes): walking the input reproduces every start/end, node = first/last leaf, module end = end of input.',
+   note=_N),
+ 'C04': dict(engine='x-crosshair', ref='DESIGN.md 4/C04', technique='solver-enumerated (realised, complete) edit histories on the real diff parser + symbolic unit lemmas of its position arithmetic',
+   text='WEAK bounded claim: all one-edit histories (every third line index in quick), two-edit histories near a fixed first edit, edit/undo/redo/truncate histories over 6 base files x a 20-line pool: incremental tree == fresh parse (types, values, prefixes, start and end positions, parents), text reproduced, used-names fresh, same syntax and PEP 8 issues. Symbolic: _update_positions for any offset, _ends_with_newline over Unicode. Symbolic text cannot pass difflib (hashing), so the histories are realised dimensions.',
+   note=_N),
+ 'C05': dict(engine='x-crosshair + z-grammar', ref='DESIGN.md 4/C05', technique=_X + ' against an independent reading of the grammar text (conformance oracle)',
+   text='Bounded model checking: every non-error node is a sentence of its rule (oracle: independent EBNF reader, unit-derivation closure, documented conventions), error nodes/leaves only in file_input / suite / block position - decided on symbolic spellings (incl. keywords) and complete label holes incl. generic defs (3.14), positional-only markers, files ending after a block header.',
+   note=_N),
+ 'C06': dict(engine='z-grammar + x-crosshair', ref='DESIGN.md 4/C06', technique='SMT (z3) language equivalence, table and Datalog FOLLOW queries on the real tables + solver-enumerated derivations through the real parser',
+   text='Table level, unbounded in sentences: DFA = right-hand side for every rule, table = terminal arcs + FIRST, LL(1), no nullable rule, no FIRST/FOLLOW conflict (all 9 shipped grammars). Engine level, bounded: derivations from file_input/eval_input through every selected focus rule with free arc choices, rendered, parsed strictly and with recovery; tree == derivation after the collapsing conventions.',
+   note=_N + ' Derivation generator validated natively on 700k derivations.'),
+ 'C07': dict(engine='x-crosshair', ref='DESIGN.md 4/C07', technique=_X + ': both parser modes on symbolic spellings and complete label holes',
+   text='Bounded model checking: strict parsing raises iff the recovered tree has an error; equal trees otherwise; reported leaf = earliest error of the recovering parser - on symbolic spellings (token level, both parsers on the same stream) and complete label holes through Grammar.parse in both modes (incl. files without final newline and trailing comments, a grammar error followed by a tokenizer error).',
+   note=_N),
+ 'C10': dict(engine='z-regex', ref='DESIGN.md 4/C10', technique='SMT (z3) regular-language equality between parso\'s live token patterns and the reference interpreters\' tokenize tables; z3 model of indentation columns',
+   text='PARTIAL claim (token classes, not streams): for each of 3.6-3.13 (3.14 judged by 3.13) language equalities/inclusions for Number, string starts and prefixes, one-line strings, Comment, Whitespace, operators vs the exact table, first-match=longest for operators, identifier characters in Name; indentation order vs CPython\'s column rule on whitespace words <=6 (form feed = known finding).',
+   note='Trusted: reference = regexes of Lib/tokenize.py and token.EXACT_TOKEN_TYPES read from each interpreter under /root/.pyenv/versions at run time; vp/rx.py translator.'),
+ 'C11': dict(engine='x-crosshair', ref='DESIGN.md 4/C11', technique=_X + ': every integer position on a tree family; synthetic tree with symbolic positions',
+   text='Bounded model checking: get_leaf_for_position / get_name_of_position for EVERY integer (line, column) on 11 trees (error nodes, zero-width error leaves, touching tokens, BOM) and on a synthetic 3-level tree with symbolic positions/widths equal the linear specification; navigation laws for every leaf/node index of the family.',
+   note=_N),
+ 'C13': dict(engine='x-crosshair', ref='DESIGN.md 4/C13', technique=_X + ': iter_errors on spellings over an adversarial alphabet and complete label holes',
+   text='Bounded model checking of iter_errors: no exception, tree unchanged, codes/messages/ranges well-formed, at most one issue per line, every error leaf / outermost error node reported, deterministic.',
+   note=_N + ' The unbounded prefix lemma T8 (C09) covers the split_prefix crash path.'),
+ 'C15': dict(engine='z-regex + x-crosshair', ref='DESIGN.md 4/C15', technique='SMT (z3) differential between parso\'s declaration regex and CPython\'s cookie_re/blank_re; CrossHair on split_lines',
+   text='Decoding: z3 decides over all ASCII first-two-line texts that parso finds a coding declaration iff CPython\'s rule does; members replayed through both decoders. split_lines laws for all strings of length <=3 over Unicode; fresh result lists; bytes input with symbolic byte/BOM.',
+   note='Reference: tokenize.cookie_re / blank_re / detect_encoding of the running interpreter. \\r and non-ASCII in the first two lines are outside the lemma.'),
+ 'C18': dict(engine='x-crosshair', ref='DESIGN.md 4/C18', technique='solver-enumerated (realised, complete) schedules / prior histories on the real code: frame condition, isolation, cooperative re-entrancy',
+   text='PARTIAL claim: frame condition on all shared state incl. function defaults and class-level containers; results independent of prior calls incl. aborted ones; a complete call of B between any two tokens / visited leaves of A on the same grammar object changes neither result; interleaved token generators; load_grammar path/version orders. OS-thread preemption inside a step is not modelled.',
+   note=_N),
+ 'C19': dict(engine='x-crosshair', ref='DESIGN.md 4/C19', technique=_X + ': refactor splice with symbolic replacement strings; serialisation round trips on complete label holes',
+   text='Bounded model checking: Grammar.refactor is the exact splice for symbolic (any Unicode, possibly empty) replacement strings and every node pair of 3 trees; eval(dump(indent)) x4 styles and pickle x2 protocols reproduce every tree of the label-hole family.',
+   note=_N),
+ 'C20': dict(engine='x-crosshair', ref='DESIGN.md 4/C20', technique=_X + ': PEP 8 normalizer on spellings over an adversarial alphabet and complete label holes, two configurations',
+   text='Bounded model checking of _get_normalizer_issues: no exception (minus the recorded indentation-stack finding, subtracted by call site), tree unchanged, well-formed non-negative ranges, no duplicates, deterministic, W292 exact on error-free trees; default and tab/10-column configuration.',
+   note=_N),
+})
+
 NA = {
  'C12': 'oracle is CPython\'s compiler (C code) for eight versions; CrossHair realises at that boundary and no machine-readable reference grammar/semantic-check specification exists offline to encode (DESIGN.md section 8)',
  'C14': 'reference semantics is CPython\'s ast module (C extension); same obstacle as C12 (DESIGN.md section 8)',
 }
-for _p in ['C01','C02','C03','C04','C05','C06','C07','C10','C11','C13','C15','C18','C19','C20']:
-    NA.setdefault(_p, TODO)
